@@ -168,15 +168,17 @@ void harness(void) {
 #endif
 
 #ifdef RECYCLE_STALE
-	/* the context recycles HA request wrappers (base.c:331); one wrapper was released earlier with an ARBITRARY state
-	 * (e.g. replies still outstanding when its service was freed) and will be re-used for this request */
+	/* the context recycles HA request wrappers (base.c:331); one wrapper was released earlier with RECYCLE_STALE
+	 * replies still outstanding (its service was freed after the first valid reply) and will be re-used for this
+	 * request.  The stale values are concrete here (a symbolic count would make the queue length symbolic if it
+	 * survived); arbitrary stale contents are H-4's subject. */
 	{
 		KSI_HighAvailabilityRequest *stale = NULL;
 		res = KSI_HighAvailabilityRequestList_new(&ctx->haRequestRecycle); ASSUME(res == KSI_OK);
 		res = KSI_HighAvailabilityRequest_new(ctx, NULL, &stale); ASSUME(res == KSI_OK && stale != NULL);
-		stale->expectedRespCount = ND(size_t, stale_count);
-		stale->hasReq = ND_BOOL(stale_has_req);
-		stale->hasCnf = ND_BOOL(stale_has_cnf);
+		stale->expectedRespCount = RECYCLE_STALE;
+		stale->hasReq = true;
+		stale->hasCnf = true;
 		KSI_HighAvailabilityRequest_free(stale);
 		ASSUME(KSI_HighAvailabilityRequestList_length(ctx->haRequestRecycle) == 1);
 	}
